@@ -197,22 +197,38 @@ def inline_call(caller, callee, call_id, seq):
         for c in n.get("ch", []):
             if c >= 0 and c not in parent:
                 parent[c] = n["id"]
-    cur = call_id
-    holder, child = None, None
-    while cur in parent:
-        p = parent[cur]
-        if nodes[p]["k"] == "CompoundStmt":
-            holder, child = p, cur
-            break
-        cur = p
     body_id = cmap.get(callee["body"], -1)
     wrapper = {"id": len(nodes), "k": "InlinedBody", "ch": [x for x in prologue] + ([body_id] if body_id >= 0 else []), "helper": hname,
                "line": old_call.get("line"), "col": old_call.get("col"), "inlined_from": hname}
     nodes.append(wrapper)
-    if holder is not None:
-        ch = nodes[holder]["ch"]
-        ch.insert(ch.index(child), wrapper["id"])
-    else:
+    cur = call_id
+    placed = False
+    while cur in parent:
+        p = parent[cur]
+        pk = nodes[p]["k"]
+        if pk == "CompoundStmt":
+            ch = nodes[p]["ch"]
+            ch.insert(ch.index(cur), wrapper["id"])
+            placed = True
+            break
+        if pk in ("WhileStmt", "ForStmt", "DoStmt", "IfStmt"):
+            role = [key for key in ("body", "then", "else", "cond", "inc", "init") if nodes[p].get(key) == cur]
+            if role and role[0] in ("body", "then", "else"):
+                # a single-statement body: { <helper body>; <statement> }
+                comp = {"id": len(nodes), "k": "CompoundStmt", "ch": [wrapper["id"], cur], "line": nodes[cur].get("line"), "col": nodes[cur].get("col"),
+                        "synthetic": "block"}
+                nodes.append(comp)
+                nodes[p][role[0]] = comp["id"]
+                nodes[p]["ch"] = [comp["id"] if c == cur else c for c in nodes[p]["ch"]]
+                placed = True
+                break
+            if role and role[0] in ("cond", "inc") and pk != "IfStmt":
+                # evaluated once per round: the helper's statements belong to the loop
+                nodes[p]["ch"] = list(nodes[p]["ch"]) + [wrapper["id"]]
+                placed = True
+                break
+        cur = p
+    if not placed:
         nodes[cj["body"]]["ch"].insert(0, wrapper["id"])
     # ---- CFG splice -------------------------------------------------------------------------------------------
     cfg = cj.get("cfg")
